@@ -59,7 +59,8 @@ def prop_catalogue(tier):
     # gcc: v0 = 0, capacities symbolic in [0, n+1] (incl. sum(upper) < n, lower > upper, zero capacities)
     gcc_nm = [(1, 1), (1, 2), (2, 1), (2, 2), (2, 3)] if q else [(1, 1), (1, 2), (2, 1), (2, 2), (2, 3), (3, 2)]
     for n, m in gcc_nm:
-        add("gcc", n, [0] + [sr(0, n + 1)] * (2 * m), D=m - 1, base=0)
+        kw = dict(only=["C04", "C05"]) if (q and (n, m) == (2, 3)) else {}  # 6 k paths: where it has shown something (R4-C04, KF-gcc-zero-capacity-C05)
+        add("gcc", n, [0] + [sr(0, n + 1)] * (2 * m), D=m - 1, base=0, **kw)
     fixed = [
         (3, [0, 0, 0, 0, 1, 1, 1]),
         (3, [0, 0, 1, 0, 3, 1, 1]),
@@ -87,9 +88,20 @@ def prop_catalogue(tier):
     for alg in ("no_sub_cycle", "scc"):
         for n, pin in circuit_shapes(q):
             free = n - len(pin)
-            if q and (free > 3 and alg == "scc" or n > 8):
-                continue  # 15^free boxes for scc: thorough tier
-            add(alg, n, [], D=n - 1, base=0, pin=pin, width=1 if q or free > 3 else 2, only=["C05", "C06", "C16", "C04"])
+            props = ["C05", "C06", "C16", "C04"]
+            if q:
+                # quick tier, sized by measured path counts: scc forks 15 ways per free vertex (50 k paths at n = 8 with four of them),
+                # so scc keeps the shapes with <= 3 free vertices and n <= 6 (+ the two long chains of n = 8); the four-chain shape of
+                # n = 8 (10 k paths for no_sub_cycle) is asked by C06 only, the n = 7, 8 random shapes by C05 / C06 only
+                if n > 8 or (alg == "scc" and (free > 3 or (n > 6 and free > 2))):
+                    continue
+                if free > 3:
+                    props = ["C06"]
+                elif n > 6 and free > 2:
+                    props = ["C05", "C06"]
+            elif free > 3 and alg == "scc" and n > 8:
+                continue  # beyond the thorough budget (measured: 50 k paths at n = 8 with four free vertices)
+            add(alg, n, [], D=n - 1, base=0, pin=pin, width=1 if q or free > 2 else 2, only=props)
     # relation: rows symbolic (repeated rows possible)
     rel = [(1, 1), (1, 2), (1, 3), (2, 1), (2, 2), (3, 2)] if q else [(1, 1), (1, 3), (2, 1), (2, 2), (2, 3), (3, 2), (3, 3), (2, 4)]
     for ar, rows in rel:
